@@ -6,8 +6,8 @@ from gcv.props import common
 PRIMS = ["context::Context::sweep_one", "<<context::Context as core::ops::drop::Drop>::drop::DropAll as core::ops::drop::Drop>::drop"]
 
 
-def run(chk, tier):
-    prog, T = typestate.engine("default")
+def run_config(chk, tier, cfgname):
+    prog, T = typestate.engine(cfgname)
     chk.explain("C01: the premises of the tri-colour safety induction are machine-checked on transition tables "
                 "extracted by abstract interpretation of the current MIR from every abstract pre-state (colour x "
                 "live x needs-trace x queue membership x phase, incl. aliasing and None arguments) and on the "
@@ -45,3 +45,17 @@ def run(chk, tier):
     chk.inst("O1-allocator-release-only-in-vtable-slot", "alloc::alloc::dealloc", ok,
              detail="alloc::dealloc is called from %s; must be only the closures stored in GcVtable slots %s" % (callers, slots))
     chk.extra["functions_analysed"] = len(prog.seed)
+
+
+def run(chk, tier):
+    cfgs = typestate.configs(tier)
+    chk.extra["feature_configs"] = cfgs
+    for c in cfgs:
+        chk.cfg = c
+        n_expl = len(chk.explanation)
+        nd = len(chk.not_decided)
+        run_config(chk, tier, c)
+        if c != cfgs[0]:
+            del chk.explanation[n_expl:]
+            del chk.not_decided[nd:]
+    chk.cfg = None
